@@ -136,3 +136,39 @@ def fpow(b, n):
         return b ** n
     except OverflowError:
         return float("inf") if (b > 0 or n % 2 == 0) else float("-inf")
+
+
+def no_shared_mutables(a, b, ignore_types=()):
+    """no list, no dict that holds containers, and no non-frozen record is reachable from both a and b: what `deep
+    copy` has to mean for state that the engine updates in place.  (Dicts / sets of scalars - requirements, recovery
+    counts - are treated as values by the code, which always builds new ones, and are not counted.)  Native only:
+    object identity is not part of the encoding."""
+    import dataclasses
+
+    def holds_containers(d):
+        vals = d.values() if isinstance(d, dict) else d
+        return any(isinstance(v, (list, dict, set)) or (dataclasses.is_dataclass(v) and not isinstance(v, type))
+                   for v in vals)
+
+    def walk(x, acc, depth=0):
+        if depth > 12 or id(x) in acc or type(x).__name__ in ignore_types:
+            return  # (ignore_types: static configuration objects that are shared on purpose and never updated)
+        if isinstance(x, list):
+            acc[id(x)] = x
+            for e in x:
+                walk(e, acc, depth + 1)
+        elif isinstance(x, (dict, set)):
+            if isinstance(x, dict) and holds_containers(x):
+                acc[id(x)] = x
+            for e in (x.values() if isinstance(x, dict) else x):
+                walk(e, acc, depth + 1)
+        elif dataclasses.is_dataclass(x) and not isinstance(x, type):
+            if not getattr(type(x), "__dataclass_params__").frozen:
+                acc[id(x)] = x
+            for f in dataclasses.fields(x):
+                walk(getattr(x, f.name), acc, depth + 1)
+
+    ma, mb = {}, {}
+    walk(a, ma)
+    walk(b, mb)
+    return not (set(ma) & set(mb))
